@@ -605,12 +605,14 @@ class History:
         """key -> V | I | O for every key that has a stored value: the model's isResultValid on the real stored bytes
         and the real stat of the sandbox."""
         cmds, tg = self.P.model_desc()
-        st = self.stats()
-        out = {}
-        for k in keys:
-            if k in stored and stored[k]:
-                out[k] = self.model.ask("valid %s %s . %s%s %s %s" % (cmds, tg, k[0], hx(k[1:].encode()), stored[k].hex(), st))
-        return out
+        ks = [k for k in keys if k in stored and stored[k]]
+        if not ks:
+            return {}
+        ans = self.model.ask("valid %s %s . %s %s" % (cmds, tg, self.stats(),
+                                                      ",".join("%s%s=%s" % (k[0], hx(k[1:].encode()), stored[k].hex()) for k in ks)))
+        if len(ans) != len(ks):
+            raise RuntimeError("model answer %r for %d keys" % (ans[:80], len(ks)))
+        return dict(zip(ks, ans))
 
     # ---- builds
     def run_llbuild(self, root, target, serial, db):
